@@ -101,6 +101,24 @@ Proof.
 Qed.
 Print Assumptions C04_assoc_error_not_silent.
 
+(* ---- a limit of the matcher, refuted at full strength (known finding F1b) ----
+   A list matcher hands its FIRST decomposition to the enclosing pattern and is never
+   re-entered: with  -f(g(..., x, ...), x)  the inner list binds x := a on  f(g(a, b), b),
+   the outer x then fails on b, and the decomposition x := b is never tried.  The target IS
+   an instance: started from the binding x := b the same matcher accepts it. *)
+Example C04_nested_nonlinear_refuted :
+  let mk := fun n : N => if N.eqb n 8 then Some KExpr else None in
+  let id n := Iface T_ast_Expr (Ptr T_P_ast_Ident (Struct T_ast_Ident [Pos true; Atom T_string n; Nil T_P_ast_Object])) in
+  let dots i := Iface T_ast_Expr (Ptr T_P_pgo_Dots (Struct T_pgo_Dots [Nil T_ast_Expr; Atom T_pgo_DotsPos i])) in
+  let call f args := Ptr T_P_ast_CallExpr (Struct T_ast_CallExpr [id f; Pos true; Slice T_S_ast_Expr args; Pos false; Pos true]) in
+  (* atoms: 3 = a, 4 = f, 5 = g, 6 = b, 8 = x *)
+  let pat := call 4 [Iface T_ast_Expr (call 5 [dots 1; id 8; dots 2]); id 8] in
+  let tgt := call 4 [Iface T_ast_Expr (call 5 [id 3; id 6]); id 6] in
+  let with_b := push_mv 8 (Ptr T_P_ast_Ident (Struct T_ast_Ident [Pos true; Atom T_string 6; Nil T_P_ast_Object])) d0 in
+  mtch mk pat tgt d0 = None /\
+  (exists d, mtch mk pat tgt with_b = Some d /\ assoc 8 (d_mv d) = assoc 8 (d_mv with_b)).
+Proof. vm_compute. split; [reflexivity|eexists; split; reflexivity]. Qed.
+
 Example C04_ex :
   let mk := fun _ : N => @None mkind in
   let a := Iface T_ast_Expr (Atom 5 1) in
